@@ -755,7 +755,12 @@ pub fn truncate(s: &str, n: usize) -> String {
     if s.len() <= n {
         s.to_string()
     } else {
-        format!("{}...[{} chars]", &s[..n], s.len())
+        // cut on a character boundary (the text may be arbitrary Unicode)
+        let mut k = n;
+        while !s.is_char_boundary(k) {
+            k -= 1;
+        }
+        format!("{}...[{} bytes]", &s[..k], s.len())
     }
 }
 
